@@ -5,8 +5,8 @@ import tempfile
 import time
 import z3
 
-Z3_MS = int(os.environ.get("VERIF_Z3_MS", "6000"))
-CLI_S = int(os.environ.get("VERIF_CLI_S", "10"))
+Z3_MS = int(os.environ.get("VERIF_Z3_MS", "10000"))
+CLI_S = int(os.environ.get("VERIF_CLI_S", "30"))
 
 
 def smt2_of(pc, goal):
@@ -38,8 +38,8 @@ _BUILTIN_KINDS = None
 def symbols(e):
     """names of uninterpreted functions/constants of arity > 0, plus heap array constants, occurring in e"""
     k = e.get_id()
-    if k in _scache:
-        return _scache[k]
+    if k in _scache and _scache[k][0].eq(e):
+        return _scache[k][1]
     out, todo, seen = set(), [e], set()
     while todo:
         x = todo.pop()
@@ -53,14 +53,14 @@ def symbols(e):
             todo.append(x.body())
         else:
             todo.extend(x.children())
-    _scache[k] = out
+    _scache[k] = (e, out)      # the expression is kept alive: z3 ids are reused after garbage collection
     return out
 
 
 def has_quantifier(e):
     k = e.get_id()
-    if k in _qcache:
-        return _qcache[k]
+    if k in _qcache and _qcache[k][0].eq(e):
+        return _qcache[k][1]
     todo, seen, res = [e], set(), False
     while todo:
         x = todo.pop()
@@ -72,7 +72,7 @@ def has_quantifier(e):
             res = True
             break
         todo.extend(x.children())
-    _qcache[k] = res
+    _qcache[k] = (e, res)
     return res
 
 
@@ -116,21 +116,33 @@ def discharge(ob, z3_ms=None, cli_s=None, use_cli=True):
                 keep.append(f); rest.remove(f); used |= sy; changed = True
     full = qf + keep
     quant = bool(keep)
-    r, sol = _check(qf, ob.goal, min(z3_ms, 1500) if quant else z3_ms)
-    if r == z3.unsat:
-        return dict(status="proved", backend="z3-5.1(api)", time=time.time() - t0, model=None)
-    cand = sol.model() if r == z3.sat else None
-    if r == z3.sat and not quant:
-        return dict(status="failed", backend="z3-5.1(api)", time=time.time() - t0, model=cand)
+    backend = "z3-5.1(api)"
     reason = None
+    reasonA = None
+    cand = None
     if quant:
-        for opts in ({"smt.mbqi": False}, {}):
-            r2, sol2 = _check(full, ob.goal, z3_ms // 2, **opts)
-            if r2 == z3.unsat:
-                return dict(status="proved", backend="z3-5.1(api,quantifiers)", time=time.time() - t0, model=None)
-            if r2 == z3.sat:
-                return dict(status="failed", backend="z3-5.1(api,quantifiers)", time=time.time() - t0, model=sol2.model())
-            reason = sol2.reason_unknown()
+        # A. full query, E-matching only (the usual way a quantified obligation is discharged)
+        r, sol = _check(full, ob.goal, z3_ms, **{"smt.mbqi": False})
+        if r == z3.unsat:
+            return dict(status="proved", backend=backend + ",e-matching", time=time.time() - t0, model=None)
+        reason = sol.reason_unknown() if r == z3.unknown else None
+        reasonA = reason
+    # B. quantifier-free part only (fewer assumptions: unsat is definitive; sat is definitive when nothing was dropped)
+    r, sol = _check(qf, ob.goal, z3_ms)
+    if r == z3.unsat:
+        return dict(status="proved", backend=backend, time=time.time() - t0, model=None)
+    if r == z3.sat:
+        cand = sol.model()
+        if not quant:
+            return dict(status="failed", backend=backend, time=time.time() - t0, model=cand)
+    if quant:
+        # C. full query with model-based quantifier instantiation (can also produce a genuine model)
+        r2, sol2 = _check(full, ob.goal, z3_ms // 2)
+        if r2 == z3.unsat:
+            return dict(status="proved", backend=backend + ",mbqi", time=time.time() - t0, model=None)
+        if r2 == z3.sat:
+            return dict(status="failed", backend=backend + ",mbqi", time=time.time() - t0, model=sol2.model())
+        reason = sol2.reason_unknown()
     if use_cli:
         try:
             text = smt2_of(full, ob.goal)
@@ -144,6 +156,16 @@ def discharge(ob, z3_ms=None, cli_s=None, use_cli=True):
                     return dict(status="proved", backend=name, time=time.time() - t0, model=None)
                 if res == "sat":
                     return dict(status="failed", backend=name, time=time.time() - t0, model=cand)
+    if quant:
+        # E. last resort: a long E-matching run (verdicts must not flip when the machine is busy)
+        r, sol = _check(full, ob.goal, z3_ms * 4, **{"smt.mbqi": False})
+        if r == z3.unsat:
+            return dict(status="proved", backend=backend + ",e-matching(long)", time=time.time() - t0, model=None)
+    if cand is not None and reasonA and "timeout" not in reasonA and "cancel" not in reasonA:
+        # E-matching saturated without a refutation (no time-out involved) and the quantifier-free part has a model:
+        # reported as a failed obligation; the model is a candidate input that the caller replays where it can
+        return dict(status="failed", backend="z3-5.1(api) e-matching saturated (" + reasonA + "); model of the quantifier-free part",
+                    time=time.time() - t0, model=cand, candidate=True, reason=reasonA)
     if cand is not None:
         # a model of the quantifier-free part only: NOT a refutation; the caller may try to replay it
         return dict(status="candidate", backend="z3-5.1(api) model of the quantifier-free part; quantified facts undecided",
